@@ -1,8 +1,10 @@
 #!/bin/sh
-# Offline setup: nothing to build -- the machinery is Python + harness sources; Kani compiles per run.
+# Offline setup: the machinery is Python + harness sources (Kani compiles per run) + one 50-line C filter.
 set -e
 cd "$(dirname "$0")"
 python3 -c "import json,sys; json.load(open('MANIFEST.json'))"
 command -v cargo-kani >/dev/null || { echo "cargo-kani missing"; exit 1; }
 mkdir -p evidence replays
+# optional: CBMC output filter (tools/kani_run.py builds it on demand as well; without it the shim is a no-op)
+(gcc -O2 -o tools/bin/cbmc_filter tools/src/cbmc_filter.c || cc -O2 -o tools/bin/cbmc_filter tools/src/cbmc_filter.c) 2>/dev/null || true
 echo setup ok
